@@ -66,6 +66,8 @@ g7    manager.resources[key] = resource
 g8    (deferred) manager.lock.Unlock();  return resource, nil
 m2 d0 d1 d2 d3 r0                    as in SF (makeCall's store and deferred block, return)
 px    the panic leaves Do and GetResource: the leading call ends without returning
+r0    (leader) return — unless the flight's value is the nil instance (`nilInst`: the loader returned `(nil, nil)`) and
+      the user asserts the type (`Cfg.asrt`): the assertion panics, the call ends without returning
 w2    (joiner) `val, err := Do(…)`: after a panicked flight both are nil, and `val.(io.Closer)` panics with a nil
       interface conversion — the joiner's call ends without returning, too (`Cfg.asrt`; without the assertion the
       joiner returns the nil value)
@@ -107,6 +109,13 @@ structure St where
   pan     : CallId → Bool       -- create panicked in this flight (then c.val and c.err stay nil)
   rets    : List RRet
 
+/-- **the nil instance**: what a loader hands back when it returns `(nil, nil)` — no error, no resource.  The code treats
+it like any instance (it is stored: `manager.resources[key] = nil`, `c.Set(key, nil)`) until the type assertion after
+the flight: `ResourceManager.GetResource` (`val.(io.Closer)`) panics — in the leader, in every joiner, and in every later
+caller, for the key now HOLDS the nil instance; `collection.Cache.Take` has no assertion and returns `(nil, nil)` to
+everyone.  (Real instances are ≥ 2 in the correspondence runs.) -/
+def nilInst : Val := 1
+
 def init (cfg : Cfg) : St :=
   { cfg := cfg, lock := none, calls := fun _ => none, wg := fun _ => 0, cval := fun _ => 0, next := 0,
     rw := none, nrd := 0, res := fun _ => none,
@@ -134,7 +143,7 @@ def step (s : St) (t : Tid) (x : Nat) : Option St :=
     | none => some { s with pc := upd s.pc t .n0 }
   | .w0 => some { s with lock := none, pc := upd s.pc t .w1 }
   | .w1 => if s.wg (s.reg t) = 0 then some { s with pc := upd s.pc t .w2 } else none
-  | .w2 => if s.pan (s.reg t) = true ∧ s.cfg.asrt = true then some { s with pc := upd s.pc t .idle }
+  | .w2 => if (s.pan (s.reg t) = true ∨ s.cval (s.reg t) = nilInst) ∧ s.cfg.asrt = true then some { s with pc := upd s.pc t .idle }
            else some { s with pc := upd s.pc t .idle,
                               rets := { tid := t, key := s.key t, exec := s.reg t, val := s.cval (s.reg t) } :: s.rets }
   | .n0 => some { s with reg := upd s.reg t s.next, next := s.next + 1, pc := upd s.pc t .n1,
@@ -173,8 +182,11 @@ def step (s : St) (t : Tid) (x : Nat) : Option St :=
   | .d2 => some { s with lock := none, pc := upd s.pc t .d3 }
   | .d3 => if s.pn t = true then some { s with wg := upd s.wg (s.reg t) (s.wg (s.reg t) - 1), pc := upd s.pc t .px }
            else some { s with wg := upd s.wg (s.reg t) (s.wg (s.reg t) - 1), pc := upd s.pc t .r0 }
-  | .r0 => some { s with pc := upd s.pc t .idle, lret := upd s.lret (s.reg t) true,
-                         rets := { tid := t, key := s.key t, exec := s.reg t, val := s.cval (s.reg t) } :: s.rets }
+  | .r0 => if s.cval (s.reg t) = nilInst ∧ s.cfg.asrt = true then
+             -- the loader returned (nil, nil): `val.(io.Closer)` / `val.([]byte)` on the nil value panics in the leader, too
+             some { s with pc := upd s.pc t .idle, lret := upd s.lret (s.reg t) true }
+           else some { s with pc := upd s.pc t .idle, lret := upd s.lret (s.reg t) true,
+                              rets := { tid := t, key := s.key t, exec := s.reg t, val := s.cval (s.reg t) } :: s.rets }
   | .px => some { s with pc := upd s.pc t .idle, pn := upd s.pn t false, lret := upd s.lret (s.reg t) true }
 
 /-- `ResourceManager.Inject(key, resource)`: `lock.Lock(); resources[key] = resource; lock.Unlock()` — one atomic
